@@ -19,7 +19,7 @@ TECH = {
     "C09": "icontract postconditions on the bound routines: sandwich LB_Keogh <= DTW <= ED against the same engine, independent Euclidean reference, C vs Python",
     "C10": "relational (metamorphic) runtime laws between related calls on one engine; no oracle",
     "C11": "C01/C02/C04/C05 monitors instantiated with vector point distances + d=1 reduction law + container differential",
-    "C12": "runtime postconditions on every DBA step: definition via reference-DP paths when unique, range, fixed point, mask independence (explicit and default initial average, nb_initial_samples), objective monotonicity, step counter",
+    "C12": "runtime postconditions on every DBA step: definition via reference-DP paths when unique, range, fixed point, mask independence (explicit and default initial average, nb_initial_samples), objective monotonicity, step counter, masks of 16-70 series",
     "C13": "brute-force reference for the matching function, stream monitor on kbest_matches, prefix/stop-rule monitor on best_matches and best_matches_knee, *_fast vs use_c objects, icontract class invariant, interleaved-iterator history vs fresh objects, logical step bound",
     "C14": "exhaustive k-NN reference + op-by-op history check against fresh objects + nested C03 monitor on the search's own dtw.distance calls + match-container protocol (len/index/slice/get_ith_value) + *_fast operations",
     "C15": "online trace checker on the API's merge_hook events against the captured distance matrix + partition/tree postconditions + SciPy differential",
@@ -83,7 +83,11 @@ def main():
         "not_applicable": na,
         "notes": "exit 0 = held on everything explored, 1 = VIOLATION line(s), 2 = inconclusive (build failure, dead "
                  "worker, deciding monitor never reached). Genuine defects found on the pinned tree were repaired "
-                 "with fix: commits in /repo and are listed in known_findings.json under 'fixed'.",
+                 "with fix: commits in /repo and are listed in known_findings.json under 'fixed'; four are recorded "
+                 "as known findings there (bug-compatible classifiers in vf/kf_models.py) and are printed as "
+                 "KNOWN-FINDING lines. ./selftest.sh applies every seeded change under seeded/ to /repo, runs the "
+                 "quick check of its property and restores /repo; mutation/ holds two operator-level mutation runs "
+                 "and the triage of their survivors (DESIGN.md 3b, 3c).",
     }
     (VERIF / "MANIFEST.json").write_text(json.dumps(man, indent=1))
     print("checks:", [c["property_id"] for c in checks], "not_applicable:", len(na))
